@@ -2,7 +2,7 @@
 from __future__ import annotations
 
 from .. import ber, policy, rfc4511
-from ..values import Gen
+from ..values import Gen, expected_message
 from ..world import Violation, World
 from .base import PropBase, St
 
@@ -45,7 +45,7 @@ class C10(PropBase):
 
     def init_op(self, rng):
         role = "s" if rng.random() < 0.8 else "c"
-        return {"op": "init", "sessions": [{"name": "x", "role": role}], "observe_pending": True, "follow": True,
+        return {"op": "init", "sessions": [{"name": "x", "role": role}], "observe_pending": True, "follow": True, "invalid_units": True,
                 "lazy_drain": rng.random() < 0.7, "first_id": rng.choice([1, 1, 1, 120, 250, 32760, 65530, 2 ** 31 - 40, 2 ** 32 - 5]), "big": rng.choice([0.03, 0.15]), "bad_text": rng.choice([0.0, 0.0, 0.04]), "style": policy.wire_style(rng)}
 
     def make(self, init):
@@ -60,6 +60,9 @@ class C10(PropBase):
         se = w.s["x"]
         model = se.model
         g = Gen(rng, big=w.init["big"], bad_text=w.init.get("bad_text", 0.0))
+        gb = Gen(rng, big=w.init["big"])  # byzantine peer (own encoder): text must be encodable here
+        gb.odd_known = True
+        gb.invalid_known = True
         x = rng.random()
         if se.inbox and x < 0.3:
             bk, scr = policy.buf_kind(rng)
@@ -81,7 +84,10 @@ class C10(PropBase):
                     kind = "BindRequest"
                 if rng.random() < 0.02:
                     kind = "UnbindRequest"
-                return {"op": "inject", "to": "x", "msg": policy.byz_request(g, mid, kind)}
+                if rng.random() < 0.03:
+                    # an operation the library does not implement (abandon, modify, ...): its id must never become answerable
+                    return {"op": "inject", "to": "x", "msg": policy.byz_raw_op(rng, mid)}
+                return {"op": "inject", "to": "x", "msg": policy.byz_request(gb, mid, kind)}
             # repeat the last accepted final response now and then
             lf = st.x["last_final"]
             if lf is not None and rng.random() < 0.3:
@@ -104,7 +110,7 @@ class C10(PropBase):
             mid = policy.pick_sorted(rng, model.out)
             kind = policy.matching_response_kind(rng, model, mid)
             code = 14 if (kind == "BindResponse" and rng.random() < 0.3) else None
-            return {"op": "inject", "to": "x", "msg": policy.byz_response(g, mid, kind, code)}
+            return {"op": "inject", "to": "x", "msg": policy.byz_response(gb, mid, kind, code)}
         c = policy.client_call(g, model, illegal_p=0.5, allow_unbind=0.06)
         if c is None:
             return None
@@ -122,7 +128,7 @@ class C10(PropBase):
                 return
             st.label("%s:%s" % (k, "ok" if ev.get("ok", True) else "err"))
             if k == "deliver":
-                if ev.get("followed"):
+                if ev.get("followed") or ev.get("followed_error"):
                     st.hit("mishandled_delivery_followed")
                 elif closed_before:
                     # input on a session that the documented state machine has closed: whether it is refused is C08's
@@ -201,6 +207,16 @@ class C10(PropBase):
                 raise Violation(P, "accepted-without-pdu/%s" % m, "appended PDU unreadable: %s" % x)
             if lt["id"] != want:
                 raise Violation(P, "accepted-wrong-id/%s" % m, "accepted %s for id %s emitted a PDU with id %s" % (m, want, lt["id"]))
+            # what went out must BE the response / request the call described (a half-encoded message is no answer to anything)
+            try:
+                got = rfc4511.wire_norm(rfc4511.strict_decode(e))
+                want_msg = rfc4511.wire_norm(expected_message(m, a, want))
+                if got != want_msg:
+                    diff = [k2 for k2 in sorted(set(got) | set(want_msg)) if got.get(k2) != want_msg.get(k2)]
+                    raise Violation(P, "accepted-wrong-message/%s" % m, "accepted %s emitted a PDU that decodes to another message than the "
+                                    "call described (fields %s)" % (m, diff))
+            except ber.Malformed as x2:
+                raise Violation(P, "accepted-wrong-message/%s" % m, "accepted %s emitted a PDU the reference decoder cannot read: %s" % (m, x2))
             if se.role == "s" and m != "unbind" and ev["st_after"] != "CLOSED":
                 live = w.probe_in_progress(op["who"], a["id"], pre.kinds.get(a["id"]))
                 if m in FINAL and live:
